@@ -202,14 +202,20 @@ CLAIMED["C08"] = dict(
         "vhash * uint16(keyhash >> 32) (mod 2^16): the incrementally maintained summaries (add / subtract with uint16 / uint32 wrap-around, "
         "invalidation of the path) are exact functions of the leaf's CURRENT items; C08_leaf_history_independent -- two trees holding the same "
         "items per leaf in any order have identical leaf counts and hashes, whatever permutations, overwrites, deletes and re-sets produced them. "
+        "INNER NODES (proofs/HTreeInner.v): C08_history_invariants -- for ALL histories of set / remove / LISTINGS in any order (listDir runs "
+        "updateNodes, which recomputes and marks nodes) every inner node marked 'updated' holds exactly the aggregate sp of the leaf summaries "
+        "beneath it (count sum mod 2^32, the *97 fold above the list threshold) and a node marked updated has only updated children; "
+        "C08_root_is_aggregate / C08_node_listing_is_aggregate -- the root summary and the 16 (hash, count) pairs of a node-level listing are "
+        "those aggregates, never a stale cached value; C08_listings_history_independent -- two trees with the same items per leaf report "
+        "identical node-level listings at every prefix and identical roots, whatever histories (incl. listings in between) produced them. "
         "Correspondence: pairs of seeded histories with equal final content (permutations, redundant overwrites, delete-then-reset) on trees of "
         "depth 0..2 x height 2..6 incl. leaf populations across the 256-item listing threshold and the 100-item C search threshold: every '@' "
         "listing at every prefix, root (hash, count), item lookups and the listing after dump+load are compared with the model, and a python "
         "oracle recomputes every listing from the final live content alone (node level exactly, item level as sets).",
-   note="PARTIAL: aggregation of inner nodes (updateNodes with lazy 'updated' marks, the *97 rule above the list threshold), item-level listings, the "
+   note="PARTIAL: item-level listings (exactly the live keys with full hash), the "
         "reconstruction of the full key hash from path + stored low bytes, dump/load and the top-level aggregate over buckets (C15) are established "
         "by correspondence + oracle, not by theorem. The C realloc/memcmp leaf arrays are modelled as lists. Trusted: Coq kernel, harness, oracle. No axioms.",
-   technique="Rocq invariant proof (exact modular bookkeeping of leaf summaries over all operation sequences; permutation invariance); differential correspondence on history pairs with equal content",
+   technique="Rocq invariant proofs (exact modular bookkeeping of leaf summaries; lazily cached inner aggregates valid under all interleavings of updates and listings; permutation invariance); differential correspondence on history pairs with equal content",
    design="6/C08")
 CLAIMED["C03"] = dict(
    text="Theorem C03_gc_preserves_reads (coq/props/C03.v): for ALL ranges begin <= end below the head file and ALL bucket states satisfying the "
